@@ -368,7 +368,7 @@ PROPS["C06"] = {
 PROPS["C07"] = {
     "lean": ["SioVerif.Props.C07"],
     "components": ["timed:TestUpgrade"],
-    "facts": ["eioSendUnderTransportLock"],
+    "facts": ["eioSendUnderTransportLock", "eioClientUpgradeSentUnderLock", "eioClientFinishUpgradeAsync"],
     "timeout": {"quick": 900, "thorough": 3000},
     "rule": "real Engine.IO server and client on the in-memory network under virtual time, continuous numbered messages in both directions (text and binary, single sends "
             "and bursts of 2..7, random gaps) from the first instant, a burst fired from the UpgradeDone callback; upgrade attempts: unobstructed, websocket refused, stalled "
